@@ -35,18 +35,21 @@ def rule_declare_path(check):
         check.expect(callers == want, R, "%s/who-calls/%s" % (R, name), sites[0][1]["sp"] if sites else "-", "%s only called from %s" % (name, callers), "%s is called from %s (temporaries created outside the registering helper)" % (name, callers))
     g = prog.fn("IdentProvider::get_temporal_ident_used_in_assignation")
     pv = Prov(prog)
-    somes = [r for r in return_exprs(g.body) if not (hir.peel(r).get("k") == "Path" and (hir.peel(r)["res"].get("ctor_path") or "").split("::")[-1] == "None")]
+    # every created temporary is registered on the path that creates it (what is returned is FRESH-TEMP's concern, C01-C03)
+    pvo = Prov(prog, opaque={"create_assign_expression"})
+    creates = list(hir.calls_in(g.body, name="create_assign_expression"))
     regs = list(hir.calls_in(g.body, name="register_ident"))
-    check.floor(R, "Some(..) returns of the temp helper", len(somes), 1)
-    for r in somes:
-        ro = {o for o in pv.origins(g, r)}
+    check.floor(R, "temporaries created in the temp helper", len(creates), 1)
+    for i, c in enumerate(creates):
+        cc = [x for x in g.conds_at(c) if x["t"] not in ("closure",)]
         ok = False
-        for c in regs:
-            co = pv.origins(g, hir.call_args(c)[1])
-            same_conds = [x for x in g.conds_at(c) if x["t"] not in ("closure",)] == [x for x in g.conds_at(r) if x["t"] not in ("closure",)]
-            if co == ro and same_conds:
+        for rg in regs:
+            same_conds = [x for x in g.conds_at(rg) if x["t"] not in ("closure",)] == cc
+            ro = pvo.origins(g, hir.call_args(rg)[1])
+            from_create = bool(ro) and all(rt[0] == "call" and len(rt) > 3 and rt[3] == c["id"] and tuple(str(x) for x in pj[:1]) == ("1",) for rt, pj in ro)
+            if same_conds and from_create:
                 ok = True
-        check.expect(ok, R, R + "/registered", hir.loc(r), "returned identifier is registered on the same path", "get_temporal_ident_used_in_assignation returns an identifier that is not registered (undeclared temporary)")
+        check.expect(ok, R, R + "/registered" + ("-%d" % i if i else ""), hir.loc(c), "the identifier created here is registered on the same path", "get_temporal_ident_used_in_assignation creates an identifier that is not registered (undeclared temporary)")
     # default provider stores registered idents
     ri = prog.fn("DefaultIdentProvider as visitor::ident_provider::IdentProvider>::register_ident") if False else _impl_method(prog, "DefaultIdentProvider", "register_ident")
     pushes = [n for n in hir.calls_in(ri.body, name="push") if (hir.place(hir.call_args(n)[0]) or "").endswith(".idents")]
@@ -154,9 +157,27 @@ def rule_reset(check):
         order = bool(sets) and all(x["id"] < n["id"] for x in sets) and any((hir.place(hir.call_args(x)[1]) or "").endswith(".orig_ctx") for x in sets)
         check.expect(ok and conj and order, R, R + "/reset_ctx", hir.loc(n), "reset_ctx only from WithCtx::drop under (restored ctx).root & auto_reset", "reset_ctx is called from %s; guard root&auto_reset=%s; ctx restored first=%s" % (f.name, conj, order))
     ch = prog.fn("Ctx::child")
-    lits = [n for n in hir.walk(ch.body) if n.get("k") == "Struct" and (n["res"].get("path") or "").endswith("Ctx")]
-    ok = len(lits) == 1 and all(hir.lit_value(fl["e"]) is False for fl in lits[0]["fields"] if fl["name"] == "root")
-    check.expect(ok, R, R + "/child-not-root", hir.loc(ch.rec), "Ctx::child has root: false", "a child context can be root")
+    check.expect(_never_root(prog, ch), R, R + "/child-not-root", hir.loc(ch.rec), "Ctx::child has root: false", "a child context can be root")
+    # guards: methods that install a context which can never be root (with_child_ctx and siblings)
+    guards = set()
+    for f in prog.user_fns:
+        if f.body is None or "WithCtx" not in (f.rec.get("ret") or ""):
+            continue
+        rs = return_exprs(f.body)
+        if not rs:
+            continue
+        good = True
+        for r in rs:
+            r = hir.peel(r)
+            if not (hir.is_call(r) and hir.callee_name(r) == "with_ctx" and len(hir.call_args(r)) > 1):
+                good = False
+                break
+            a = hir.peel(hir.call_args(r)[1])
+            gg = prog.resolve_local(a) if hir.is_call(a) else None
+            if not (gg is not None and _never_root(prog, gg)):
+                good = False
+        if good:
+            guards.add(f.name)
     roots = [(f, n) for f, n, c in prog.call_sites() if hir.is_call(n) and c["name"] == "root" and "Ctx" in c["path"] and not f.rec.get("gen")]
     names = sorted({f.name for f, _ in roots})
     check.expect(names == ["visit_mut_block_stmt"], R, R + "/root-ctx-creation", "-", "Ctx::root() only when a block driver starts a block", "Ctx::root() is created in %s" % names)
@@ -185,20 +206,46 @@ def rule_reset(check):
                 continue
             b = v.bindings().get(int(r.split("#")[1]))
             init = b["origin"][1] if b and b["origin"][0] == "let" else None
-            if init is not None and any(hir.is_call(x) and hir.callee_name(x) == "with_child_ctx" for x in hir.walk(init)):
+            if init is not None and any(hir.is_call(x) and hir.callee_name(x) in guards for x in hir.walk(init)):
                 guard_ok = True
             elif init is not None:
                 # with_ctx(c) where c can only be a child context
                 for x in hir.walk(init):
                     if hir.is_call(x) and hir.callee_name(x) == "with_ctx" and len(hir.call_args(x)) > 1:
                         os_ = Prov(prog).origins(v, hir.call_args(x)[1])
-                        if os_ and all(r[0] == "ctor" and r[2].endswith("Ctx::child") for r, p in os_):
+                        if os_ and all(r[0] == "ctor" and r[2] in prog.by_def and _never_root(prog, prog.by_def[r[2]]) for r, p in os_):
                             guard_ok = True
         check.expect(guard_ok, R, "%s/raii/%s" % (R, g.name), hir.loc(n), "%s runs under a with_child_ctx() guard" % g.name, "%s can create temporaries but is not called through a with_child_ctx() guard: the counter is reset while temporaries of the enclosing expression are live" % g.name)
     check.floor(R, "temp-creating transform calls in visit_mut_expr", n_sites, 5)
     wc = prog.fn("VisitorWithContext::with_child_ctx")
     ok = any(hir.is_call(x) and hir.callee_name(x) == "child" for x in hir.walk(wc.body))
     check.expect(ok, R, R + "/with_child_ctx", hir.loc(wc.rec), "with_child_ctx installs Ctx::child(..)", "with_child_ctx does not install a child context")
+
+
+def _never_root(prog, f, depth=0):
+    """True if every Ctx the function f returns has root == false (struct literal with `root: false`,
+    or functional update of a context produced by such a function)."""
+    if f is None or f.body is None or depth > 3:
+        return False
+    rs = return_exprs(f.body)
+    if not rs:
+        return False
+    for r in rs:
+        r = hir.peel(r)
+        if r.get("k") == "Struct" and (r["res"].get("path") or "").endswith("Ctx"):
+            fl = {x["name"]: x["e"] for x in r["fields"]}
+            if "root" in fl:
+                if hir.lit_value(fl["root"]) is not False:
+                    return False
+                continue
+            b = hir.peel(r["base"]) if "base" in r else None
+            if b is not None and hir.is_call(b) and _never_root(prog, prog.resolve_local(b), depth + 1):
+                continue
+            return False
+        if hir.is_call(r) and _never_root(prog, prog.resolve_local(r), depth + 1):
+            continue
+        return False
+    return True
 
 
 T_VISIT = {"visit_mut_with", "visit_mut_children_with", "visit_with", "visit_children_with"}
@@ -312,7 +359,7 @@ def rule_refusal(check):
     ok = len(vi) == 1 and any(hir.callee_name(x) == "register_variable" and hir.local_of(hir.call_args(x)[1]) for x in hir.walk(vi[0].body) if hir.is_call(x))
     check.expect(ok, R, R + "/visit_mut_ident", hir.loc(vi[0].rec) if vi else "-", "every visited identifier is registered", "visit_mut_ident does not register the identifier")
     rv = _impl_method(prog, "DefaultIdentProvider", "register_variable")
-    ok = any(hir.callee_name(x) == "insert" and (hir.place(hir.call_args(x)[0]) or "").endswith(".variable_decl") and not rv.conds_at(x) for x in hir.walk(rv.body) if hir.is_call(x))
+    ok = any(hir.callee_name(x) in ("insert", "push") and (hir.place(hir.call_args(x)[0]) or "").endswith(".variable_decl") and not rv.conds_at(x) for x in hir.walk(rv.body) if hir.is_call(x))
     check.expect(ok, R, R + "/register_variable", hir.loc(rv.rec), "register_variable stores unconditionally", "register_variable does not store every identifier")
     dup = prog.fn("block_transform_visitor::variables_contains_possible_duplicate")
     anyc = [x for x in hir.calls_in(dup.body, name="any")]
